@@ -504,8 +504,16 @@ fn facts(sc: &Scenario, out: &RunOut, root: &Path, code_abs: &Path, eep_abs: &Pa
     let mut f = Facts { hard_input: false, fault_on_code: false, fault_on_eep: false, hard_on_code: false, hard_on_eep: false, benign_fired: false, stdout_fault: sc.stdout != "pipe", budget_hit: false, any: false };
     for e in &out.trace {
         let abs = abs_of_event(root, &sc.cwd, &e.path);
-        let on_code = abs == code_abs;
-        let on_eep = abs == eep_abs;
+        // a temp-like sibling of an output (same directory, name containing the output's name)
+        // is that output as far as faults go: an atomic writer works on "<out>.tmp"
+        let sibling = |a: &Path, o: &Path| -> bool {
+            match (a.parent(), o.parent(), a.file_name().and_then(|x| x.to_str()), o.file_name().and_then(|x| x.to_str())) {
+                (Some(ap), Some(op), Some(an), Some(on)) => ap == op && an != on && an.contains(on),
+                _ => false,
+            }
+        };
+        let on_code = abs == code_abs || sibling(&abs, code_abs);
+        let on_eep = abs == eep_abs || (sibling(&abs, eep_abs) && !on_code);
         let on_std = e.path.starts_with("<std");
         if e.rule == -2 {
             f.budget_hit = true;
@@ -614,19 +622,39 @@ pub fn judge(sc: &Scenario, out: &RunOut, reference: &Reference, root: &Path, se
     }
     let exit0 = out.status == Some(0);
     let printed = !out.stdout.is_empty() || !out.stderr.is_empty();
-    // what changed on the disk
+    // what changed on the disk. New directories are never held against the tool (creating the
+    // parent directory of an output is not writing a file); a temp-like leftover next to an
+    // output on which a fault fired is tolerated (an atomic writer that could not finish).
     let mut changed: Vec<String> = vec![];
     for (k, v) in &out.after {
+        if v.is_none() && !out.before.contains_key(k) {
+            continue; // a new directory
+        }
         if out.before.get(k) != Some(v) {
             changed.push(k.clone());
         }
     }
-    for k in out.before.keys() {
+    for (k, v) in &out.before {
         if !out.after.contains_key(k) {
-            changed.push(format!("{} (removed)", k));
+            changed.push(format!("{}{} (removed)", k, if v.is_none() { "/" } else { "" }));
         }
     }
-    let foreign: Vec<String> = changed.iter().filter(|c| Some(c.as_str()) != code_rel.as_deref() && Some(c.as_str()) != eep_rel.as_deref()).cloned().collect();
+    let leftover_of = |c: &str, rel: &Option<String>, faulted: bool| -> bool {
+        match rel {
+            Some(r) if faulted && !out.before.contains_key(c) => {
+                let (cd, cn) = (crate::incmodel::dirname(c), crate::incmodel::basename(c));
+                let (rd, rn) = (crate::incmodel::dirname(r), crate::incmodel::basename(r));
+                cd == rd && cn.contains(rn)
+            }
+            _ => false,
+        }
+    };
+    let foreign: Vec<String> = changed
+        .iter()
+        .filter(|c| Some(c.as_str()) != code_rel.as_deref() && Some(c.as_str()) != eep_rel.as_deref())
+        .filter(|c| !leftover_of(c, &code_rel, f.fault_on_code) && !leftover_of(c, &eep_rel, f.fault_on_eep))
+        .cloned()
+        .collect();
 
     match reference {
         Reference::Fails(why) => {
@@ -926,7 +954,16 @@ fn out_choice(r: &mut Rng, name: &str, sc: &mut Scenario) -> String {
             sc.dirs.push(d);
             name.to_string()
         }
-        5 => "/dev/full".to_string(),
+        5 => {
+            // a full device, simulated inside the scratch root (the binary under test is never
+            // pointed at a real system path: a changed tree may rename over or unlink it):
+            // the file exists and every write to it fails with ENOSPC
+            // (-o and -e get different devices: the outputs are always different paths)
+            let dev = format!("dev/full-{}", if name.ends_with(".hex") { "flash" } else { "eeprom" });
+            sc.files.insert(dev.clone(), String::new());
+            sc.rules.push(RuleSpec::errno("write", &format!("$R/{}", dev), -1, "ENOSPC", "full-device"));
+            format!("$R/{}", dev)
+        }
         _ => format!("./{}", name),
     }
 }
@@ -1033,7 +1070,7 @@ fn account(acc: &mut Acc, sc: &Scenario, out: &RunOut, reference: &Reference, ro
     if real_out_fail {
         for e in out.trace.iter().filter(|e| e.rule < 0 && e.errno != 0 && matches!(e.call, Call::Open | Call::Write)) {
             let k = match e.errno {
-                x if x == libc::ENOSPC => "real-dev-full",
+                x if x == libc::ENOSPC => "real-enospc",
                 x if x == libc::EISDIR => "real-output-is-directory",
                 x if x == libc::EFBIG => "real-rlimit-fsize",
                 x if x == libc::ENOENT && (e.req & libc::O_CREAT as i64) != 0 => "real-output-dir-missing",
@@ -1148,7 +1185,7 @@ pub fn worker(cfg: &WorkerCfg, emit: &mut dyn FnMut(Violation)) -> Stats {
         let mut digest = 0u64;
         if needs_profile {
             let mut p = sc.clone();
-            p.rules.clear();
+            p.rules.retain(|r| r.kind == "full-device");
             p.fsize_limit = None;
             p.config = "free".into();
             let prof = match execute(&env, &p, budget) {
@@ -1240,7 +1277,7 @@ pub fn replay(scv: &Value) -> Result<Option<Violation>, String> {
     materialise(&sc, &env.root)?;
     let reference = reference(&env.root, &sc);
     let mut p = sc.clone();
-    p.rules.clear();
+    p.rules.retain(|r| r.kind == "full-device");
     p.fsize_limit = None;
     let prof = execute(&env, &p, 1_000_000)?;
     let budget = 4 * prof.trace.len() as u64 + 64;
